@@ -82,6 +82,48 @@ func isReleaseOf(info *types.Info, c *ast.CallExpr, obj types.Object) bool {
 	return ok && info.Uses[id] == obj
 }
 
+// releasesOfParam counts the `Release()` calls a library function makes on its ai-th parameter
+func (w *world) releasesOfParam(info *types.Info, c *ast.CallExpr, ai int) int {
+	var fn *types.Func
+	switch f := c.Fun.(type) {
+	case *ast.Ident:
+		fn, _ = info.Uses[f].(*types.Func)
+	case *ast.SelectorExpr:
+		if info.Selections[f] == nil {
+			fn, _ = info.Uses[f.Sel].(*types.Func)
+		}
+	}
+	if fn == nil {
+		return 0
+	}
+	fd := w.funcs[fn]
+	if fd == nil || fd.Body == nil || fd.Type.Params == nil {
+		return 0
+	}
+	finfo := w.infoOf[fd]
+	idx := 0
+	var param types.Object
+	for _, pf := range fd.Type.Params.List {
+		for _, nm := range pf.Names {
+			if idx == ai {
+				param = finfo.ObjectOf(nm)
+			}
+			idx++
+		}
+	}
+	if param == nil {
+		return 0
+	}
+	n := 0
+	ast.Inspect(fd.Body, func(m ast.Node) bool {
+		if cc, ok := m.(*ast.CallExpr); ok && isReleaseOf(finfo, cc, param) {
+			n++
+		}
+		return true
+	})
+	return n
+}
+
 func (w *world) genLifecycle() string {
 	type use struct {
 		fn, pos, kind string
@@ -155,6 +197,17 @@ func (w *world) genLifecycle() string {
 								u.escap = true // stored somewhere else than a local
 							} else {
 								_ = i
+								retCalls := map[*ast.CallExpr]bool{}
+								ast.Inspect(fd.Body, func(n ast.Node) bool {
+									if x, ok := n.(*ast.ReturnStmt); ok {
+										for _, r := range x.Results {
+											if c, ok := r.(*ast.CallExpr); ok {
+												retCalls[c] = true
+											}
+										}
+									}
+									return true
+								})
 								ast.Inspect(fd.Body, func(n ast.Node) bool {
 									switch x := n.(type) {
 									case *ast.ReturnStmt:
@@ -189,6 +242,21 @@ func (w *world) genLifecycle() string {
 									case *ast.CallExpr:
 										if isReleaseOf(info, x, obj) {
 											u.direct++
+										}
+										// the pooled object handed to a library function that releases it: as the last thing the
+										// acquiring function does (`return finish(b)`) it counts like the deferred release, anywhere
+										// else like a direct one
+										for ai, a := range x.Args {
+											aid, ok := a.(*ast.Ident)
+											if !ok || info.Uses[aid] != obj {
+												continue
+											}
+											n := w.releasesOfParam(info, x, ai)
+											if retCalls[x] {
+												u.deferred += n
+											} else {
+												u.direct += n
+											}
 										}
 									}
 									return true
@@ -248,95 +316,131 @@ func (w *world) genLifecycle() string {
 	}
 	// provenance of the value stored in an optional-parameter container by the four parsers
 	var provs []string
-	for _, target := range []string{"smgp.ParseOptions", "smgp.ReadOptions", "smpp.ReadTLVs", "smpp.ReadTLVs1"} {
+	var provOfFn func(fn *types.Func, depth int) string
+	provOfFn = func(fn *types.Func, depth int) string {
 		prov := "unknown"
-		for _, fn := range fns {
-			if funcDisplayName(fn) != target {
-				continue
-			}
-			fd := w.funcs[fn]
-			info := w.infoOf[fd]
-			params := map[types.Object]bool{}
-			if fd.Type.Params != nil {
-				for _, f := range fd.Type.Params.List {
-					for _, n := range f.Names {
-						params[info.ObjectOf(n)] = true
-					}
+		fd := w.funcs[fn]
+		info := w.infoOf[fd]
+		params := map[types.Object]bool{}
+		if fd.Type.Params != nil {
+			for _, f := range fd.Type.Params.List {
+				for _, n := range f.Names {
+					params[info.ObjectOf(n)] = true
 				}
 			}
-			// how every local []byte variable is defined (all definitions must agree)
-			defs := map[types.Object][]string{}
-			classify := func(x ast.Expr) string {
-				switch e := x.(type) {
-				case *ast.CallExpr:
-					if f, ok := e.Fun.(*ast.Ident); ok && f.Name == "make" {
-						return "fresh"
-					}
-					if f, ok := e.Fun.(*ast.Ident); ok && f.Name == "append" && len(e.Args) >= 1 {
-						if c, ok := e.Args[0].(*ast.CallExpr); ok { // append([]byte(nil), …)
-							if _, ok := c.Fun.(*ast.ArrayType); ok {
-								return "fresh"
-							}
-						}
-					}
-				case *ast.SliceExpr:
-					if id, ok := e.X.(*ast.Ident); ok && params[info.Uses[id]] {
-						return "alias"
-					}
+		}
+		// how every local []byte variable is defined (all definitions must agree)
+		defs := map[types.Object][]string{}
+		classify := func(x ast.Expr) string {
+			switch e := x.(type) {
+			case *ast.CallExpr:
+				if f, ok := e.Fun.(*ast.Ident); ok && f.Name == "make" {
+					return "fresh"
 				}
-				return "unknown"
-			}
-			ast.Inspect(fd.Body, func(n ast.Node) bool {
-				if as, ok := n.(*ast.AssignStmt); ok && len(as.Lhs) == len(as.Rhs) {
-					for i, l := range as.Lhs {
-						if id, ok := l.(*ast.Ident); ok {
-							if obj := info.ObjectOf(id); obj != nil {
-								defs[obj] = append(defs[obj], classify(as.Rhs[i]))
-							}
+				if f, ok := e.Fun.(*ast.Ident); ok && f.Name == "append" && len(e.Args) >= 1 {
+					if c, ok := e.Args[0].(*ast.CallExpr); ok { // append([]byte(nil), …)
+						if _, ok := c.Fun.(*ast.ArrayType); ok {
+							return "fresh"
 						}
 					}
 				}
+			case *ast.SliceExpr:
+				if id, ok := e.X.(*ast.Ident); ok && params[info.Uses[id]] {
+					return "alias"
+				}
+			}
+			return "unknown"
+		}
+		ast.Inspect(fd.Body, func(n ast.Node) bool {
+			if as, ok := n.(*ast.AssignStmt); ok && len(as.Lhs) == len(as.Rhs) {
+				for i, l := range as.Lhs {
+					if id, ok := l.(*ast.Ident); ok {
+						if obj := info.ObjectOf(id); obj != nil {
+							defs[obj] = append(defs[obj], classify(as.Rhs[i]))
+						}
+					}
+				}
+			}
+			return true
+		})
+		// the composite literals stored into the container: field `value`
+		var found []string
+		ast.Inspect(fd.Body, func(n ast.Node) bool {
+			cl, ok := n.(*ast.CompositeLit)
+			if !ok {
 				return true
-			})
-			// the composite literals stored into the container: field `value`
-			var found []string
+			}
+			for _, el := range cl.Elts {
+				kv, ok := el.(*ast.KeyValueExpr)
+				if !ok {
+					continue
+				}
+				if k, ok := kv.Key.(*ast.Ident); ok && k.Name == "value" {
+					if id, ok := kv.Value.(*ast.Ident); ok {
+						ds := defs[info.Uses[id]]
+						r := "unknown"
+						if len(ds) > 0 {
+							r = ds[0]
+							for _, d := range ds {
+								if d != r {
+									r = "unknown"
+								}
+							}
+						}
+						found = append(found, r)
+					} else {
+						found = append(found, classify(kv.Value))
+					}
+				}
+			}
+			return true
+		})
+		if len(found) > 0 {
+			prov = found[0]
+			for _, f := range found {
+				if f != prov {
+					prov = "unknown"
+				}
+			}
+		}
+
+		if len(found) == 0 && depth < 3 && fd.Type.Results != nil && len(fd.Type.Results.List) >= 1 {
+			// a wrapper: the container is what one other library function returned (`tlvs, _ := ReadTLVs(r); return tlvs`)
+			var callees []*types.Func
+			rt := info.TypeOf(fd.Type.Results.List[0].Type)
 			ast.Inspect(fd.Body, func(n ast.Node) bool {
-				cl, ok := n.(*ast.CompositeLit)
+				c, ok := n.(*ast.CallExpr)
 				if !ok {
 					return true
 				}
-				for _, el := range cl.Elts {
-					kv, ok := el.(*ast.KeyValueExpr)
-					if !ok {
-						continue
+				var g *types.Func
+				switch f := c.Fun.(type) {
+				case *ast.Ident:
+					g, _ = info.Uses[f].(*types.Func)
+				case *ast.SelectorExpr:
+					if info.Selections[f] == nil {
+						g, _ = info.Uses[f.Sel].(*types.Func)
 					}
-					if k, ok := kv.Key.(*ast.Ident); ok && k.Name == "value" {
-						if id, ok := kv.Value.(*ast.Ident); ok {
-							ds := defs[info.Uses[id]]
-							r := "unknown"
-							if len(ds) > 0 {
-								r = ds[0]
-								for _, d := range ds {
-									if d != r {
-										r = "unknown"
-									}
-								}
-							}
-							found = append(found, r)
-						} else {
-							found = append(found, classify(kv.Value))
-						}
-					}
+				}
+				if g == nil || w.funcs[g] == nil || g == fn {
+					return true
+				}
+				if sig, ok := g.Type().(*types.Signature); ok && sig.Results().Len() >= 1 && rt != nil && types.Identical(sig.Results().At(0).Type(), rt) {
+					callees = append(callees, g)
 				}
 				return true
 			})
-			if len(found) > 0 {
-				prov = found[0]
-				for _, f := range found {
-					if f != prov {
-						prov = "unknown"
-					}
-				}
+			if len(callees) == 1 {
+				return provOfFn(callees[0], depth+1)
+			}
+		}
+		return prov
+	}
+	for _, target := range []string{"smgp.ParseOptions", "smgp.ReadOptions", "smpp.ReadTLVs", "smpp.ReadTLVs1"} {
+		prov := "unknown"
+		for _, fn := range fns {
+			if funcDisplayName(fn) == target {
+				prov = provOfFn(fn, 0)
 			}
 		}
 		provs = append(provs, fmt.Sprintf("(%s, %s)", q(target), q(prov)))
